@@ -24,7 +24,11 @@ RULE = ("ppgen sections: (a) 1-5 object-/function-like macros with bodies of ran
         "parenthesised-comma, string, macro and nested-invocation arguments, multi-line invocations, #undef; "
         "(b) #if/#elif chains over expression trees of decimal/hex/octal literals with u/l suffixes, character "
         "constants, defined, undefined identifiers, numeric macros and + - * / % << >> & | ^ ~ ! < <= > >= == != "
-        "&& || ?: (incl. unevaluated divisions by zero), each arm holding a distinct marker token. "
+        "&& || ?: (incl. unevaluated divisions by zero), each arm holding a distinct marker token; about "
+        "half of the conditions are typed probes: consumer(op(a, b)) with a, b of mixed signedness (u suffix on "
+        "either side, also on shift counts), a result with the sign bit set, and a sign-sensitive consumer "
+        "(< 0, >= 0, / k, % k, >> k compared with the typed value, ?: mixed with 0 or 0u) so that a wrong "
+        "intmax_t/uintmax_t type of any operator's result flips the arm. "
         "non-trivial = section with >= 1 macro use or >= 1 operator; distinct by hash of the section text")
 ASSUMPTIONS = ["gcc 12 -E -P -std=c99 -pedantic-errors is a conforming C99 preprocessor",
                "the neutral lexer splits both outputs into the same pp-tokens (self-checked: gcc's output "
@@ -57,7 +61,10 @@ def floors(tier):
     return {"evaluations": 200000 if big else 2500, "distinct_nontrivial": 100000 if big else 2000,
             "observed.kind.if": 1000, "observed.kind.macro": 1000,
             "observed.features.function-macro": 500, "observed.features.object-macro": 500,
-            "observed.features.else": 500, "observed.arms_taken": 3}
+            "observed.features.else": 500, "observed.arms_taken": 3,
+            # typed probes: operator x operand signedness (x consumer) combinations actually judged
+            "observed.type_probe_ops": 60, "observed.type_probes": 250,
+            "observed.type_probe_ops.>>:su": 15, "observed.type_probe_ops.<<:su": 5}
 
 
 GCC = ["gcc", "-E", "-P", "-std=c99", "-pedantic-errors", "-x", "c"]
@@ -159,7 +166,7 @@ def run_shard(spec):
     logging.disable(logging.CRITICAL)
     tmp = os.environ.get("VERIF_TMP") or os.getcwd()
     avoid = frozenset(spec["avoid"])
-    obs = {"kind": {}, "features": {}, "outcome": {}, "arms_taken": {}}
+    obs = {"kind": {}, "features": {}, "outcome": {}, "arms_taken": {}, "type_probes": {}, "type_probe_ops": {}}
     disc, viol, samples, hashes = {}, [], [], []
     evals = 0
 
@@ -190,6 +197,9 @@ def run_shard(spec):
             bump("kind", sec.kind)
             for f in sec.feats:
                 bump("features", f)
+            for pr in sec.probes:
+                bump("type_probes", pr)
+                bump("type_probe_ops", pr.split(" ")[0])
             if sec.nontrivial:
                 hashes.append(h(sec.text))
             case = {"section": sec.text, "kind": sec.kind, "gcc_tokens": " ".join(want[idx])}
